@@ -75,6 +75,7 @@ class Ctx:
         self.path_wall_s = path_wall_s
         self.path_t0 = 0.0
         self.decided: dict[int, tuple] = {}
+        self.bindings: list = []
         self.notes: dict = {}
         self.base_assumptions: list[z3.BoolRef] = []
         self.first_path = True
@@ -127,8 +128,24 @@ class Ctx:
         if time.time() - self.path_t0 > self.path_wall_s:
             raise NonTermination(f'path exceeded {self.path_wall_s}s wall time')
 
+    def _bind(self, term, val):
+        """remember `symbol == constant` facts of the current path; they are substituted into later conditions so
+        that branches they decide need no solver call"""
+        if z3.is_const(term) and term.decl().kind() == z3.Z3_OP_UNINTERPRETED and z3.is_bv(term):
+            self.bindings.append((term, z3.BitVecVal(val, term.size())))
+
+    def _note_equality(self, cond, choice):
+        if choice and z3.is_eq(cond):
+            a, b = cond.arg(0), cond.arg(1)
+            if z3.is_bv_value(b) and not z3.is_bv_value(a):
+                self._bind(a, b.as_long())
+            elif z3.is_bv_value(a) and not z3.is_bv_value(b):
+                self._bind(b, a.as_long())
+
     def decide(self, cond) -> bool:
         """Fork on a z3 Bool; returns the side taken on the current path."""
+        if self.bindings:
+            cond = z3.substitute(cond, *self.bindings)
         cond = z3.simplify(cond)
         if z3.is_true(cond):
             return True
@@ -161,10 +178,13 @@ class Ctx:
             self.decisions += 1
         self.pos += 1
         self.decided[key] = (cond, choice)
+        self._note_equality(cond, choice)
         return choice
 
     def choose(self, term, limit: int = 64, rng=None) -> int:
         """K-way fork over the feasible values of a bit-vector term; returns the concrete value."""
+        if self.bindings:
+            term = z3.substitute(term, *self.bindings)
         term = z3.simplify(term)
         if z3.is_bv_value(term):
             return term.as_signed_long()
@@ -176,6 +196,7 @@ class Ctx:
                 self._push(term == z3.BitVecVal(val, W))
                 self.model = None
             self.pos += 1
+            self._bind(term, val)
             return val
         # new K-way decision: enumerate feasible values lazily; trail entry = [value, seen_list]
         seen = []
@@ -187,6 +208,7 @@ class Ctx:
         self.model = None
         self.decisions += 1
         self.pos += 1
+        self._bind(term, val)
         return val
 
     def _next_value(self, term, seen, rng=None):
@@ -238,6 +260,7 @@ class Ctx:
         self.pos = 0
         self.obligations = []
         self.decided = {}
+        self.bindings = []
         self.path_t0 = time.time()
         self.notes = {}
         if self.kept == 0:
